@@ -93,14 +93,16 @@ def run_one(harness, timeout, target, playback=False, extra=None):
     env = dict(os.environ)
     env['CARGO_NET_OFFLINE'] = 'true'
     t0 = time.time()
-    p = subprocess.run(['bash', '-c', cmd], cwd=CRATE, env=env, stdout=subprocess.PIPE, stderr=subprocess.STDOUT, text=True, errors='replace')
+    os.makedirs(os.path.join(CACHE, 'kani-logs'), exist_ok=True)
+    logp = os.path.join(CACHE, 'kani-logs', harness.replace('::', '.') + ('.playback' if playback else '') + '.log')
+    with open(logp, 'w') as f:
+        p = subprocess.run(['bash', '-c', cmd], cwd=CRATE, env=env, stdout=f, stderr=subprocess.STDOUT)
     res.wall = time.time() - t0
-    parse(res, p.stdout)
+    with open(logp, errors='replace') as f:
+        out = f.read()
+    parse(res, out)
     if p.returncode in (124, 137) and res.status not in ('success', 'failed'):
         res.status = 'timeout'
-    os.makedirs(os.path.join(CACHE, 'kani-logs'), exist_ok=True)
-    with open(os.path.join(CACHE, 'kani-logs', harness + ('.playback' if playback else '') + '.log'), 'w') as f:
-        f.write(p.stdout)
     return res
 
 
